@@ -2,6 +2,7 @@
 package main
 
 import (
+	"regexp"
 	"context"
 	"crypto/sha256"
 	"encoding/hex"
@@ -9,9 +10,9 @@ import (
 	"os"
 	"os/exec"
 	"path/filepath"
+	"runtime"
 	"sort"
 	"strings"
-	"sync"
 	"time"
 )
 
@@ -72,7 +73,26 @@ func buildSliceIndex(decls []string, owner map[string]string, axioms []axiomTerm
 }
 
 // smtText: declarations transitively referenced by the obligation, its assumptions, and the negated goal
-func (ix *sliceIndex) smtText(o *Oblig) string {
+var reRangeFact = regexp.MustCompile(`^\(and \(<= (\(- \d+\)|0) .*\) \(<= .* \d+\)\)$`)
+
+func isRangeFact(p string) bool {
+	return reRangeFact.MatchString(p) && !strings.Contains(p, "forall") && !strings.Contains(p, "exists")
+}
+
+func (ix *sliceIndex) smtText(o *Oblig, pruned bool) string {
+	if pruned && !strings.HasPrefix(o.Kind, "safety/overflow") {
+		var pre []string
+		for _, p := range o.Pre {
+			if !isRangeFact(p) {
+				pre = append(pre, p)
+			}
+		}
+		if len(pre) != len(o.Pre) {
+			o2 := *o
+			o2.Pre = pre
+			return ix.smtText(&o2, false)
+		}
+	}
 	need := map[int]bool{}
 	seen := map[string]bool{}
 	var work []string
@@ -213,10 +233,20 @@ type Solver struct {
 	timeout  time.Duration
 	cacheDir string
 	noCache  bool
-	mu       sync.Mutex
 }
 
+var procSem = make(chan struct{}, runtime.NumCPU())
+
 func runOne(ctx context.Context, bin string, args []string) (string, string) {
+	select {
+	case procSem <- struct{}{}:
+	case <-ctx.Done():
+		return "timeout", ""
+	}
+	defer func() { <-procSem }()
+	if ctx.Err() != nil {
+		return "timeout", ""
+	}
 	cmd := exec.CommandContext(ctx, bin, args...)
 	out, _ := cmd.CombinedOutput()
 	text := strings.TrimSpace(string(out))
@@ -230,6 +260,33 @@ func runOne(ctx context.Context, bin string, args []string) (string, string) {
 		return "timeout", text
 	}
 	return "error", text
+}
+
+// solveVariants: a discharge of the pruned query (fewer assumptions) is a discharge of the obligation
+func (sv *Solver) solveVariants(pruned, full string, canary bool) SolveResult {
+	if canary || pruned == full {
+		return sv.solve(full, canary)
+	}
+	saved := sv.timeout
+	_ = saved
+	r := sv.solveWith(pruned, false, 6)
+	if r.Status == "unsat" {
+		r.Solver += "(pruned)"
+		return r
+	}
+	r2 := sv.solve(full, false)
+	r2.Millis += r.Millis
+	return r2
+}
+
+func (sv *Solver) solveWith(text string, canary bool, secs int) SolveResult {
+	t := sv.timeout
+	c := *sv
+	c.timeout = time.Duration(secs) * time.Second
+	if c.timeout > t {
+		c.timeout = t
+	}
+	return c.solve(text, canary)
 }
 
 func (sv *Solver) solve(text string, canary bool) SolveResult {
